@@ -93,7 +93,10 @@ let check inp obs =
     let nonce = bytes_of_hex nonce and msg = bytes_of_hex msg and pw = bytes_of_hex pw and pw1 = bytes_of_hex pw1 in
     let ctb = bytes_of_hex ct and r1 = res_of_string res1 and r2 = res_of_string res2 in
     let mct = (match encrypt cipher pw nonce msg with Ok c -> c | _ -> []) in
-    let model = hex_of_bytes mct ^ " " ^ string_of_res (decrypt cipher pw1 mct) ^ " " ^ string_of_res (decrypt cipher pw mct) ^ " 1" in
+    (* the model threads the buffer through both calls (Model.attempts at DstFresh, the subject of
+       C37_repeated_attempts) *)
+    let (mrs, mbuf) = attempts cipher DstFresh mct [pw1; pw] in
+    let model = hex_of_bytes mct ^ " " ^ String.concat " " (List.map string_of_res mrs) ^ (if mbuf = mct then " 1" else " 0") in
     let prop = out_eqb (Ok mct) (Ok ctb) && prop_decrypt cipher pw1 mct r1 && out_eqb r2 (Ok msg)
                && (pw1 <> pw || out_eqb r1 (Ok msg)) in
     ignore same;
